@@ -317,10 +317,10 @@ def gen_staged_spec(rng, tier):
 
 def gen_cases(seed, tier):
     rng = np.random.default_rng([seed, 7])
-    n = 130 if tier == "quick" else 2000
+    n = 130 if tier == "quick" else 6000
     single = [{"spec": gen_spec(rng, tier)} for _ in range(n)]
     rng2 = np.random.default_rng([seed, 7, 1])
-    m = 50 if tier == "quick" else 700
+    m = 50 if tier == "quick" else 2000
     staged = [{"spec": gen_staged_spec(rng2, tier)} for _ in range(m)]
     # interleave, so that every worker process sees staged and single-fit cases in a mixed order
     out, k = [], max(1, n // m)
